@@ -57,6 +57,40 @@ PROPS = {
         "trusted_base": ["rexile 0.5.8 regular expressions of grl.rs: not modelled"],
         "assumptions": ["string literals contain no quote character of their own kind (GRL has no escape sequences)", "dates in the form YYYY-MM-DD"],
     },
+    "C09": {
+        "num": 9,
+        "vo": ["Properties/C09.vo"],
+        "harness_timeout": 2400,
+        "rule": "random Horn-style rule sets built with the Rule API: 1..8 rules over 3..8 fields (booleans, integers, strings; flat and Obj.x names), conditions = And/Or trees (half of the sets conjunctive) of field == value / >= / < leaves incl. "
+                "dead ends (values nobody concludes), actions = 1..2 literal assignments; two thirds of the sets assign every field in at most one rule with its designated value (deterministic, monotone), the others contain "
+                "wrong-value conclusions and competing rules; shared sub-goals and cyclic dependencies arise freely; initial facts = a random subset of designated values (rarely a wrong value); one atomic goal per case; "
+                "max_depth in {0,1,2,3,6,10} (at most 4 / 3 for non-deterministic sets of more than 3 / 5 rules: the search is exponential in the bound on cyclic sets); strategies depth-first (3/5), breadth-first, iterative; max_solutions 1 and 3. Observed per query: provable, the caller's facts before and after. non-trivial = provable",
+        "level_text": "Theorems (Coq, every rule set / goal / depth / facts): whenever the depth-first search with execution - at the root or at any sub-goal - reports a goal proven, the goal comparison holds in the facts "
+                "it hands back; the same for iterative deepening. The model of the search (candidate selection, recursive proof of unmet conditions, re-execution, rollback of failed candidates) predicts the verdict of "
+                "every depth-first and iterative query on deterministic rule sets and is compared with the code; the Coq-defined monitor checks on the implementation's observations, for all three strategies: provable -> "
+                "goal true in the facts handed back AND in the many-valued forward closure of the rules on the facts asked on; (depth-first, conjunctive, monotone instances) goal at level max_depth of the bounded "
+                "forward derivation -> provable; verdict = verdict of a fresh search on the same facts.",
+        "level_note": "Partial: closure-soundness and bounded completeness are monitored on every case but not yet theorems; breadth-first search depends on hash-set iteration order and is monitored only. Trusted: Coq kernel; model of "
+                "search.rs / rule_executor.rs / condition_evaluator.rs / conclusion_index.rs after fixes 692df85 047f79f ab15463 dfacdc7 fe5aaf4 f980bee (Horn core: field-op-literal conditions, literal assignments, flat fact "
+                "names; no negated goals, TMS/RETE attachment, functions or multifield conditions); harness; extraction. Axioms: none.",
+        "trusted_base": ["std HashSet iteration order of the root candidate set: the model predicts verdicts only where they cannot depend on it"],
+        "assumptions": ["rules assign literals (Horn-style); goals are atomic `field op literal`"],
+    },
+    "C11": {
+        "num": 11,
+        "vo": ["Properties/C11.vo"],
+        "harness_timeout": 2400,
+        "rule": "histories of 2..9 operations on ONE BackwardEngine (memoisation enabled) and one caller's fact store: queries (atomic goals), assertions / changes (set a field, in non-deterministic sets also to a wrong "
+                "value) and removals of facts in between, often the same query before and after a change; rule sets, strategies and depths as in C09. Observed per query: provable, facts before and after. "
+                "non-trivial = at least one provable query",
+        "level_text": "Theorem (Coq): with the memo table of BackwardEngine (keyed by the query and the canonical encoding of the facts, only failures answered from it), whatever was asked before on whatever facts, the "
+                "verdict of a query is the verdict a fresh search gives on the facts passed in, and the table stays sound (invariant by induction over the history); a fresh engine's table is sound. The engine model "
+                "with its table is compared with the code query by query on deterministic rule sets, and the monitor compares every observed verdict with a fresh model search on the observed facts.",
+        "level_note": "The theorem's premise - the search verdict depends on the facts only through their sorted encoding, from which the key is built - is stated, not proved (it needs order-insensitivity of the assoc-list store "
+                "under the search). RETE-attached queries (proof graph, TMS retractions) are outside the model. Trusted: as C09 plus the memo key of repair dfacdc7. Axioms: none.",
+        "trusted_base": [],
+        "assumptions": ["no RETE engine attached to the queries"],
+    },
     "C02": {
         "num": 2,
         "vo": ["Properties/C02.vo"],
@@ -172,10 +206,13 @@ PROPS = {
         "vo": ["Properties/C10.vo"],
         "rule": "store part: exhaustive all sequences of length<=5 (quick; <=6 thorough) over a 10-op alphabet (begin, commit, rollback, set/remove on 2 keys, "
                 "object set, two set_nested) from two initial stores (sequences of length>=4 start with begin), plus random sequences of 2..10 ops over 3 keys with "
-                "int/object values; non-trivial = at least one effective rollback (label not 'trivial'); nested+commit = a commit with >=2 open frames",
+                "int/object values; non-trivial = at least one effective rollback (label not 'trivial'); nested+commit = a commit with >=2 open frames. "
+                "Query part: 6000 (quick) backward-chaining cases as in C09/C11 (a third of them histories) whose failed proof attempts derive intermediate facts; observed: provable, the caller's facts before and after each query",
         "level_text": "Theorem for every initial store and every operation sequence (unbounded length, nesting and keys): the per-key undo log of Facts is observationally "
                 "equal to a stack of whole-store snapshots (values and fact types of every key, result codes), proved by a simulation invariant; corollary: rollback restores the "
-                "store of the matching begin across arbitrary nested begin/commit/rollback. The model is tied to facts.rs by per-op differential comparison and the Coq monitor runs on the implementation's observations.",
+                "store of the matching begin across arbitrary nested begin/commit/rollback. The model is tied to facts.rs by per-op differential comparison and the Coq monitor runs on the implementation's observations. "
+                "Query part: theorem - a depth-first search (Model/Backward.v) that does not prove its goal hands back exactly the facts it was given, at every recursion level; monitored on the code for all three "
+                "strategies: not provable -> facts after = facts before.",
         "level_note": "Trusted: Coq kernel; model of facts.rs after fix c0a4186 (values restricted to integers and one-level objects; paths k and k.f); harness; extraction. "
                 "The query half of C10 (a failed backward-chaining query leaves the facts untouched) is checked by the C09 harness suite when present. Axioms: none.",
         "trusted_base": [],
